@@ -163,6 +163,10 @@ class AddStream(HTMLHandlerBase):
             flask.flash(f'CSRF error: {err}', 'error')
             return self.get(error=str(err))
         for f in models.Stream.get_column_names(with_collections=False):
+            if f in {'pk', 'timing_ref'}:
+                # the key of the row is chosen by the database, and a new
+                # stream has no media file that could be its timing reference
+                continue
             data[f] = params.get(f)
             if data[f] == '':
                 data[f] = None
